@@ -1,0 +1,10 @@
+//go:build verif
+
+package models
+
+// Verification hooks (build tag "verif" only): the unexported escape helpers.
+
+func VerifEscapeTag(in []byte) []byte           { return escapeTag(append([]byte(nil), in...)) }
+func VerifUnescapeTag(in []byte) []byte         { return unescapeTag(append([]byte(nil), in...)) }
+func VerifUnescapeMeasurement(in []byte) []byte { return unescapeMeasurement(append([]byte(nil), in...)) }
+func VerifUnescapeStringField(in string) string { return unescapeStringField(in) }
